@@ -80,6 +80,23 @@ def matrix_cases(vals, shards):
     return out
 
 
+def datasort_case(rnd, vals):
+    """dataSort on rows whose sort columns mix values that are equal for Python but not for BareScript
+    (true / 1, false / 0), equal numbers in both spellings, nulls and missing fields"""
+    import copy
+    from bare_script.data import sort_data
+    fields = ['f1', 'f2', 'f3']
+    small = [True, 1, False, 0, None, 1.0, 0.0, 'a', 2, 'b']
+    src = small if rnd.random() < 0.6 else (vals[:40] if rnd.random() < 0.7 else vals)
+    rows = [{f: copy.deepcopy(rnd.choice(src)) for f in fields if rnd.random() < 0.85} for _ in range(rnd.randint(0, 8))]
+    spec = [[f, rnd.random() < 0.4] for f in rnd.sample(fields, rnd.randint(1, 3))]
+    ids = {id(r): i + 1 for i, r in enumerate(rows)}
+    inp = [A.aval(r) for r in rows]
+    res = sort_data(list(rows), [s if s[1] else [s[0]] for s in spec])
+    return {'kind': 'datasort', 'inp': inp, 'out': [A.aval(r) for r in res], 'perm': [ids.get(id(r), 0) for r in res],
+            'fields': [{'name': A.cps(f), 'desc': d} for f, d in spec]}
+
+
 def consumer_cases(rnd, vals, count):
     from bare_script import evaluate_expression
     from bare_script.library import SCRIPT_FUNCTIONS as SF
@@ -102,15 +119,7 @@ def consumer_cases(rnd, vals, count):
             res = SF['arraySort']([arr], None)
             out.append({'kind': 'sorted', 'inp': inp, 'out': [A.aval(x) for x in res]})
         elif k < 0.7:
-            fields = ['f1', 'f2', 'f3']
-            rows = [{f: copy.deepcopy(rnd.choice(vals[:40] if rnd.random() < 0.7 else vals)) for f in fields if rnd.random() < 0.85}
-                    for _ in range(rnd.randint(0, 8))]
-            spec = [[f, rnd.random() < 0.4] for f in rnd.sample(fields, rnd.randint(1, 3))]
-            ids = {id(r): i + 1 for i, r in enumerate(rows)}
-            inp = [A.aval(r) for r in rows]
-            res = sort_data(list(rows), [s if s[1] else [s[0]] for s in spec])
-            out.append({'kind': 'datasort', 'inp': inp, 'out': [A.aval(r) for r in res], 'perm': [ids.get(id(r), 0) for r in res],
-                        'fields': [{'name': A.cps(f), 'desc': d} for f, d in spec]})
+            out.append(datasort_case(rnd, vals))
         elif k < 0.85:
             src = vals[:14] if rnd.random() < 0.6 else vals
             args = [rnd.choice(src) for _ in range(rnd.randint(0, 6))]
